@@ -23,30 +23,30 @@ NA = {
 
 CHECKS = {
  'C12': dict(
-   text='Seeded fault injection into the stateful importer: 0-4 cells of a generated document are replaced by malformed text (strict family that the lexer/parser must hit; lexable-tail family that is classified), placement biased to rows after *^/*v, sub-spines, barline rows, adjacent cells, last rows, second **kern spines and non-kern spines, optionally after blank lines; oracles: loads returns, exactly one error per malformed **kern/**root cell with the physical line number, every other token equal to the undamaged import, kern and eKern exports equal the undamaged export with exactly the damaged cells replaced, and a re-import of the clean text in the same process is unaffected. History runs feed one long-lived importer of every class <=40 valid/malformed tokens in two orders and compare each outcome with a fresh importer.  Fault vocabulary as built: unlexable characters incl. non-ASCII digits, truncated tokens, wrong order, bad chords, chords whose tree walk raises, garbage appended, separators, placeholder-like cells; documents include combined spine-operator rows, early-terminated spines, unterminated fragments; ~8% of the runs execute with warnings as errors. Exploration: the placement/history space is sampled, not enumerated.',
+   text='Seeded fault injection into the stateful importer: 0-4 cells of a generated document are replaced by malformed text (strict family that the lexer/parser must hit; lexable-tail family that is classified), placement biased to rows after *^/*v, sub-spines, barline rows, adjacent cells, last rows, second **kern spines and non-kern spines, optionally after blank lines; oracles: loads returns, exactly one error per malformed **kern/**root cell with the physical line number, every other token equal to the undamaged import, kern and eKern exports equal the undamaged export with exactly the damaged cells replaced, and a re-import of the clean text in the same process is unaffected. History runs feed one long-lived importer of every class <=40 valid/malformed tokens in two orders and compare each outcome with a fresh importer.  Fault vocabulary as built: unlexable characters incl. non-ASCII digits, truncated tokens, wrong order, bad chords, chords whose tree walk raises, garbage appended, separators, placeholder-like cells; documents include combined spine-operator rows, early-terminated spines, unterminated fragments; ~8% of the runs execute with warnings as errors. Added in the third session: a fifth of the damaged imports go through load() on the simulated OS (1-3-byte reads, EINTR, non-UTF-8 locale, a multi-byte character of a malformed cell placed exactly across the first I/O block boundary), re-entrant imports (a callback at a seeded line event of the damaged import imports another damaged text), interruption inside importer histories, unbroken runs of 26-60 malformed cells in one spine, the export by measures of the damaged document, strict mode and the deprecated create() compared with loads(), logging at DEBUG. Exploration: the placement/history space is sampled, not enumerated.',
    note='Trusted: kernpy on the undamaged text as the reference path (a consistently wrong import is invisible: that is C01-C03); the strict-family vocabulary really is unparseable (justified from the lexer alphabet and grammar, probed on the tree); the exporter drops rows whose exported cells are all placeholders. Two genuine defects are listed as known findings (prefix-accepted, separator-stripped) with matchers tied to the injected fault family and the exact observed shape.',
    technique='deterministic simulation: seeded corrupted-cell fault plans + token histories on long-lived importers vs undamaged reference run, ddmin-minimised replay',
    design='4.1', engine='sim-import'),
  'C15': dict(
-   text='Seeded call histories (<=8 operations) over a pool of aliasing document handles - sources, clones, transposed results, results transposed again or back - with the cross-invariant "every live handle still exports (six encodings) what it exported when it was created" after every operation, and each result compared cell by cell with the source export in which only the pitch fields of the notes are replaced by an independent letter/semitone interval model. The 40 interval names x 2 directions are swept completely by every 80 consecutive runs. Faults: invalid interval/direction, intervals that become unspellable midway through the rewrite, and to_transposed interrupted at a seeded line event; a failed call must leave every handle as it was. Core configuration (single notes without explicit accidentals) is strict; accidentals, chords and note-like cells of **root/**mxhm are explored and matched to three known findings by exact shape. As built also: background traffic through the public pitch API with caller edits of what it returned, non-interned string arguments, unterminated fragments, scores longer than the recursion limit, measure-index exports of every handle, warnings as errors.',
+   text='Seeded call histories (<=8 operations) over a pool of aliasing document handles - sources, clones, transposed results, results transposed again or back - with the cross-invariant "every live handle still exports (six encodings) what it exported when it was created" after every operation, and each result compared cell by cell with the source export in which only the pitch fields of the notes are replaced by an independent letter/semitone interval model. The 40 interval names x 2 directions are swept completely by every 80 consecutive runs. Faults: invalid interval/direction, intervals that become unspellable midway through the rewrite, and to_transposed interrupted at a seeded line event; a failed call must leave every handle as it was. Core configuration (single notes without explicit accidentals) is strict; accidentals, chords and note-like cells of **root/**mxhm are explored and matched to three known findings by exact shape. As built also: background traffic through the public pitch API with caller edits of what it returned, non-interned string arguments, unterminated fragments, scores longer than the recursion limit, measure-index exports of every handle, warnings as errors, logging at DEBUG, and re-entrancy: a callback at a seeded line event of to_transposed uses the public pitch API for another pitch (two transpositions in flight at once, no thread).',
    note='Trusted: the interval model (diatonic steps, semitones from quality and number); kernpy\'s export of the SOURCE as the frame against which the result is compared; pitches needing more than two accidentals are unconstrained; note cells are located through the generator\'s abstract document.',
    technique='deterministic simulation: seeded histories over aliasing document handles vs reference pitch model, cross-handle invariants, interruption faults, ddmin-minimised replay',
    design='4.3', engine='sim-history'),
  'C16': dict(
-   text='Seeded search over call histories (8-30 operations) on ONE shared importer, ONE shared exporter and a pool of reused pitch objects, against an independent (letter, alteration, octave) <-> spelling model, with the invariant "every pool object still equals its model" after every operation; the 539-spelling grid is visited completely by every 539 consecutive runs (quick = 12 sweeps, thorough = 400). Faults: invalid spellings/arguments between valid calls and exports interrupted at a seeded line event. Exploration is the right level: the grid is finite and covered, the interleavings over shared objects are sampled. As built also: edits through the public setters and rejected edits, re-entrancy through factory-made codec objects at a seeded line event, the first export of a process interrupted at an absolute line event, warnings as errors.',
+   text='Seeded search over call histories (8-30 operations) on ONE shared importer, ONE shared exporter and a pool of reused pitch objects, against an independent (letter, alteration, octave) <-> spelling model, with the invariant "every pool object still equals its model" after every operation; the 539-spelling grid is visited completely by every 539 consecutive runs (quick = 12 sweeps, thorough = 400). Faults: invalid spellings/arguments between valid calls and exports interrupted at a seeded line event. Exploration is the right level: the grid is finite and covered, the interleavings over shared objects are sampled. As built also: edits through the public setters and rejected edits, re-entrancy through factory-made codec objects at a seeded line event, the first export of a process interrupted at an absolute line event, warnings as errors, logging at DEBUG, a closed stderr, python -O (separate leg), codec objects used from a brand-new thread, the graphic (staff position) exporter under common and rare clefs and the American exporter as further readers of the pool objects, names in the documented # notation, pool objects made by the American importer.',
    note='Trusted: the Humdrum spelling rule as written in simkit-free model code in checks/c16.py; sys.monitoring delivering LINE events; objects returned by to_transposed are modelled by the same call on a fresh equal object.',
    technique='deterministic simulation: seeded call histories on shared mutable codec/pitch objects vs reference model, interruption faults, ddmin-minimised replay',
    design='4.4', engine='sim-history'),
 }
  
 CHECKS['C20'] = dict(
-   text='The one property whose mechanism lives on the operating-system seam. kernpy (load, dump, kern_to_ekern, ekern_to_krn and the real CLI in single-file and directory mode, recursive or not) runs on a simulated OS: an in-memory tree behind builtins.open/io.open/os.stat/lstat/scandir/listdir/mkdir/getcwd, with the REAL CPython io stack on a fake raw file, so read/write chunk boundaries (inside multi-byte characters, between CR and LF), EINTR, EIO/ENOSPC at a byte or call, failing open/mkdir, listing order, the preferred encoding, a virtual cwd and a second actor (mkdir inside the exists->makedirs window, unlink between listing and open) are all decided by the seeded plan. Oracle: the in-memory API on the same text (documents with equal deep snapshots, error lists and exports; target bytes equal dumps(...).encode(locale); converter outputs equal the API export; kern->ekern->kern->ekern fixed point) plus a frame condition after every operation. Under an injected fault an operation may raise but never return normally with a wrong target; the next fault-free operation is strict again. As built the simulator also owns os.open and descriptor-level calls, io.FileIO, io.TextIOWrapper/locale, rename/replace/unlink, a logical mtime; the workload includes files of several I/O blocks, in-place edits, converting onto the input, blank lines, dot-files, stale longer outputs; the CLI is driven as python -m kernpy.',
+   text='The one property whose mechanism lives on the operating-system seam. kernpy (load, dump, kern_to_ekern, ekern_to_krn and the real CLI in single-file and directory mode, recursive or not) runs on a simulated OS: an in-memory tree behind builtins.open/io.open/os.stat/lstat/scandir/listdir/mkdir/getcwd, with the REAL CPython io stack on a fake raw file, so read/write chunk boundaries (inside multi-byte characters, between CR and LF), EINTR, EIO/ENOSPC at a byte or call, failing open/mkdir, listing order, the preferred encoding, a virtual cwd and a second actor (mkdir inside the exists->makedirs window, unlink between listing and open) are all decided by the seeded plan. Oracle: the in-memory API on the same text (documents with equal deep snapshots, error lists and exports; target bytes equal dumps(...).encode(locale); converter outputs equal the API export; kern->ekern->kern->ekern fixed point) plus a frame condition after every operation. Under an injected fault an operation may raise but never return normally with a wrong target; the next fault-free operation is strict again. As built the simulator also owns os.open and descriptor-level calls, io.FileIO, io.TextIOWrapper/locale, rename/replace/unlink, a logical mtime; the workload includes files of several I/O blocks, in-place edits, converting onto the input, blank lines, dot-files, stale longer outputs; the CLI is driven as python -m kernpy. Added in the third session: a narrow or closed stdout (the progress line may fail, the conversion may not), non-NFC input text, names and directories with glob metacharacters and an empty stem, inputs of exactly one I/O buffer, header-only inputs, a cell longer than the csv field limit (the reference is computed before the file is read), --output_path given in directory mode, logging at DEBUG, write faults that follow an implementation to the temporary file it writes next to the target.',
    note='Trusted: simfs models one POSIX-like tree (no symlinks, no permissions beyond injected errno); text-mode universal newlines are part of "the same input" for ekern2kern; crash consistency of a half-written target is not asserted (only reported); the reference is kernpy\'s own in-memory API, so a defect common to both paths is invisible.',
    technique='deterministic simulation: simulated file system/locale/external actor under the real io stack, seeded chunking + errno fault injection + interruption, in-memory API as reference model, ddmin-minimised replay',
    design='4.5', engine='sim-fs')
 
 CHECKS['C14'] = dict(
-   text='Seeded call histories (3-12 operations) on ONE live document - dumps with arbitrary options (six encodings, spine types/ids, include/exclude as set/list/tuple/single, valid and invalid measure ranges), dump/graph through the simulated OS, the deprecated export() re-using one options object, 27 kinds of queries - interleaved with background traffic on process-global state (other imports clean and damaged, concat, pitch transposition, agnostic conversion, ExportOptions(), to_transposed of another document, long-lived importers). After EVERY operation: the normalised result equals that of the same operation on a copy imported at that moment and never touched before; the deep structural snapshot of the live document equals the one taken after import; the module constants equal their values at the start of the run; reused argument objects are unchanged; at time 0 and at the end a fixed 15-item battery on two imports must agree. Faults: calls built to raise, interruption at a seeded kernpy line event (SimInterrupt / MemoryError, ~35% of the runs), I/O faults on dump/graph targets.  As built also: re-entrant nested calls on other documents at a seeded line event, caller-owned argument objects reused and edited in place, results edited by the caller, short-lived background documents (identity reuse), a deferred-reference mode in which the live document makes its calls back to back, and a live document that stays cold until the first operation. Exploration over histories; expected silent on a correct tree and earns its keep on mutants.',
+   text='Seeded call histories (3-12 operations) on ONE live document - dumps with arbitrary options (six encodings, spine types/ids, include/exclude as set/list/tuple/single, valid and invalid measure ranges), dump/graph through the simulated OS, the deprecated export() re-using one options object, 35 kinds of queries (incl. copy.deepcopy, pickle, tree walks with a caller-supplied visitor, Token.export with a caller-supplied filter, Document.to_concat, the deprecated get_spine_types/store/store_graph) - interleaved with background traffic on process-global state (other imports clean and damaged, concat, pitch transposition, agnostic conversion, ExportOptions(), to_transposed of another document, long-lived importers). After EVERY operation: the normalised result equals that of the same operation on a copy imported at that moment and never touched before; the deep structural snapshot of the live document equals the one taken after import; the module constants equal their values at the start of the run; reused argument objects are unchanged; at time 0 and at the end a fixed 15-item battery on two imports must agree. Faults: calls built to raise, interruption at a seeded kernpy line event (SimInterrupt / MemoryError, ~35% of the runs), I/O faults on dump/graph targets.  As built also: re-entrant nested calls on other documents at a seeded line event, caller-owned argument objects reused and edited in place, results edited by the caller, short-lived background documents (identity reuse), a deferred-reference mode in which the live document makes its calls back to back, and a live document that stays cold until the first operation; ONE stdout object per run, sometimes a strict ascii/latin-1 text layer, which no read-only call may close; background file imports with canary texts whose import leans on process-wide reader settings; the same dump repeated after a failed one; module-level containers watched by discovery; logging at DEBUG. Exploration over histories; expected silent on a correct tree and earns its keep on mutants.',
    note='Trusted: kernpy itself on a fresh copy as the reference path (a read-only call that is consistently wrong is invisible); attributes whose name starts with "_" are outside the snapshot; interrupted calls only have to raise; no thread interleavings (kernpy promises no thread safety, C14 does not quantify over schedules).',
    technique='deterministic simulation: seeded read-only call histories vs freshly imported replica, deep-snapshot/constant/argument invariants after every step, interruption and I/O faults, ddmin-minimised replay',
    design='4.2', engine='sim-history')
